@@ -14,6 +14,7 @@ import (
 	"os"
 	"strconv"
 	"sync"
+	"time"
 )
 
 type script struct {
@@ -247,6 +248,14 @@ func bytesContains(a, b []byte) bool {
 	return false
 }
 
+// DeadlineControl: from now on contexts with a deadline expire only when ExpireDeadlines is called
+// (symbolic side).  Natively a no-op: real time decides.
+func DeadlineControl() {}
+
+// ExpireDeadlines: "time passes here until every pending deadline has expired".  Natively sleeps past
+// the (fast_test) payment retry window.
+func ExpireDeadlines() { time.Sleep(3 * time.Second) }
+
 // Thorough reports whether the check runs in the thorough tier (natively: $VERIF_TIER).
 func Thorough() bool { return os.Getenv("VERIF_TIER") == "thorough" }
 
@@ -277,4 +286,6 @@ func LocksHeld() int { return 0 }
 func LockOrderCycle() bool { return false }
 
 // UFStr is an uninterpreted function for oracles (natively: a deterministic rendering).
-func UFStr(name string, args ...interface{}) string { return fmt.Sprint(append([]interface{}{name}, args...)...) }
+func UFStr(name string, args ...interface{}) string {
+	return fmt.Sprint(append([]interface{}{name}, args...)...)
+}
